@@ -87,12 +87,13 @@ def run(ctx):
     item_grammar_rules(ctx, "C15")
     f = ctx.fn("darling_core::ast::data::NestedMeta::parse_meta_list")
     if f:
-        rs = ctx.ret_values(f)
-        ok = len(rs) == 1 and "parse_terminated" in rs[0] and "Parser>::parse2(" in rs[0].replace("syn::parse::Parser::parse2", "Parser>::parse2") and "a1" in rs[0]
-        ctx.ob("C15.F.list-is-parse-terminated", f.key, "Punctuated::<NestedMeta, Comma>::parse_terminated.parse2(tokens)", ok, "%s" % [r[:240] for r in rs])
-        cl = ctx.closures_of(f)
-        okc = any(all("into_iter(a2)" in e.replace("IntoIterator>::into_iter", "into_iter") and "collect(" in e for _, e in ctx.ret_exprs(c)) and ctx.ret_exprs(c) for c in cl)
-        ctx.ob("C15.F.list-keeps-order", f.key, "punctuated.into_iter().collect()", okc, "%s" % [[e[:140] for _, e in ctx.ret_exprs(c)] for c in cl])
+        cs = resalg.cases(ctx, f)
+        P = "<F as syn::parse::Parser>::parse2(fn syn::punctuated::Punctuated::<T, P>::parse_terminated, a1)"
+        okv = [v for c, v in cs if c == ["is_ok(%s)=True" % P]]
+        erv = [v for c, v in cs if c == ["is_ok(%s)=False" % P]]
+        ctx.ob("C15.F.list-is-parse-terminated", f.key, "Punctuated::<NestedMeta, Comma>::parse_terminated.parse2(tokens)", len(cs) == 2 and len(okv) == 1 and erv == ["core::result::Result::Err{(%s as Err).0}" % P], "%s" % [(c, v[:200]) for c, v in cs])
+        want = "core::result::Result::Ok{core::iter::traits::iterator::Iterator::collect(<syn::punctuated::Punctuated<T, P> as core::iter::traits::collect::IntoIterator>::into_iter((%s as Ok).0))}" % P
+        ctx.ob("C15.F.list-keeps-order", f.key, "punctuated.into_iter().collect()", okv == [want], "%s" % [v[:300] for v in okv])
     f = ctx.fn("<darling_core::ast::data::NestedMeta as quote::to_tokens::ToTokens>::to_tokens")
     if f:
         calls = [(ctx.pc_strs(f, b), mir.callee_info(t).get("self_ty"), ctx.expr(f, t["args"][0])) for b, t in ctx.find_calls(f, r"ToTokens>::to_tokens$|printing::<impl quote::to_tokens::ToTokens for ")]
